@@ -451,4 +451,10 @@ class Spec(core.PropSpec):
         out.nontrivial = K >= 1 and NB >= 2
 
 
+    def extra_evidence(self, tier, seed):
+        from simkit.simloader import stub_validation
+        sv = stub_validation(3 if tier == "quick" else 25, seed)
+        return {"stub_validation": sv, "traces_validated_against_impl": sv["batches_compared"]}
+
+
 SPEC = Spec()
